@@ -217,6 +217,8 @@ def make_histories_factory(pars):
         starts = [dict(op="new", src=p, template=t) for t, p in Tm.items()] * 3 + [dict(op="open", src=s, buf=b) for s in S for b in (False, True)]
         small = sorted(S, key=os.path.getsize)
         # pretty save -> edits through handles obtained before it -> pretty save again (zip and folder), next to a plain save of the same memory
+        # edited XML part of an embedded object, pretty save first (fixed edge stream, every run)
+        hs += pkglib.object_pretty_histories(S, starts, rng)
         hs += pkglib.resave_histories([starts[0], dict(op="open", src=small[3], buf=False), dict(op="open", src=small[6], buf=True)], rng)
         extra_flat = pkglib.flat_image_histories(S, Tm["text"], tier)
         # comments / processing instructions outside the root element of a part: layout changes, they stay (plain and pretty, zip and folder)
